@@ -93,6 +93,25 @@ func (e *Engine) verifyFunction(fn *ssa.Function, fc *FuncContract, ifaceNames [
 		}
 	}
 	env := vc.specEnv(act, st, st, "requires", nil)
+	// assumed invariants of constant package-level values (e.g. exported errors are non-nil)
+	for _, gc := range e.contracts.Globals {
+		genv := &SpecEnv{vc: vc, st: st, old: st, vars: map[string]TV{}, pkg: e.pkgByPath(e.contracts.GlobalPkg[gc]), allocBase: "alloc0", kind: "requires"}
+		vc.assertGlobal(genv.evalBoolExpr(gc.Expr))
+	}
+	// ghost initialisation declared by site sweeps that cover this function
+	for _, site := range e.contracts.Sites {
+		if len(site.Entry) == 0 {
+			continue
+		}
+		name := e.shortName(fn)
+		for _, pat := range site.In {
+			if globMatch(pat, name) {
+				for _, ec := range site.Entry {
+					vc.assume(st, vc.evalBool(env, ec))
+				}
+			}
+		}
+	}
 	if fc != nil {
 		// iface contracts use their own parameter names: alias them to the implementation's
 		if len(ifaceNames) > 0 {
